@@ -67,7 +67,9 @@ async def yield_discipline(ctx, version: str, lines: list[str]) -> None:
         except Exception as exc:  # noqa: BLE001
             await iterator.aclose()
             iterator = gateway.listen()
-            outcome = {"kind": "error", "class": type(exc).__name__}
+            from ..harness import canonical_class
+
+            outcome = {"kind": "error", "class": canonical_class(exc)}
         else:
             outcome = {"kind": "yield"}
             yielded.append(fields_of(message))
